@@ -183,18 +183,40 @@ def _score_obs(getter, unit):
     return [u, 1 if exact else 0, "ok"]
 
 
-def run_case(case):
-    from . import standin_cplex
-    Dataset, SS, CF = _impl["Dataset"], _impl["SS"], _impl["CF"]
+def _blank(case):
     rec = dict(case)
     rec.update(out="", K=[], dup=0, starts2=[], rep=[0, 0, "absent"], rep0=[0, 0, "absent"], opt=0, starts=[], auxcalls=0,
                wpart=[], pred="", complete=0, cop={"s2": [], "ved": []}, desc=0, ids=[])
-    B, T, unit = case["sch"]
     # optional second limb: the scheme given to the library is H * (B, T) + (B2, T2), far beyond TLC's 32-bit integers;
     # TLC evaluates the two limbs separately (the score is linear in the penalties) and compares pairs
     H = int(case.get("H", 0))
     B2, T2 = case.get("sch2", [[0] * 6, [0] * 6])
     rec.update(H=H, sch2=[list(B2), list(T2)], rep2=[0, 0, "absent"])
+    return rec
+
+
+def _timed_out(case):
+    rec = _blank(case)
+    rec["out"] = "timeout"
+    return rec
+
+
+def run_case(case):
+    return _run_case(case)
+
+
+# the local search runs in compiled loops that no Python-level alarm can interrupt: the cases run in forked children that
+# can be killed (a run that does not come back is recorded as "timeout": not a verdict)
+KILLABLE = (_timed_out, 12)
+
+
+def _run_case(case):
+    from . import standin_cplex
+    Dataset, SS, CF = _impl["Dataset"], _impl["SS"], _impl["CF"]
+    rec = _blank(case)
+    B, T, unit = case["sch"]
+    H = rec["H"]
+    B2, T2 = rec["sch2"]
     am = core.Absmap(case["naming"], case["D"])
     if case.get("env") == "standin":
         standin_cplex.install()
